@@ -853,6 +853,9 @@ class Lib:
                 return ()
             if name == 'size':
                 return 1
+            import numpy as _np
+            if not any(hasattr(t, name) for t in (_np.float64, _np.int64, _np.bool_)):
+                raise PyRaise(builtin_exc('AttributeError'), "numeric scalar has no attribute '%s'" % name)
             return LibMethod(v, name)
         if isinstance(v, Opaque) and v.name == 'super':
             return self.super_lookup(v, name)
@@ -862,6 +865,9 @@ class Lib:
                 if v.tz is None:
                     return None
                 return models_time.UTC if v.tz == 'UTC' else Opaque('tzinfo', tzname=v.tz)
+            import datetime as _dt
+            if not hasattr(_dt.datetime, name):
+                raise PyRaise(builtin_exc('AttributeError'), "'datetime.datetime' object has no attribute '%s'" % name)
             return LibMethod(v, name)
         if isinstance(v, Opaque) and v.name == 'timedelta' and name in ('days', 'seconds', 'microseconds'):
             # CPython normal form: us = ((days*86400 + seconds) * 10**6 + microseconds), 0 <= seconds < 86400, 0 <= microseconds < 10**6
@@ -1343,6 +1349,8 @@ def _issubclass(L, c, t):
 def _list(L, it=()):
     if isinstance(it, Arr) and getattr(it, 'lazy_seq', False):
         return it
+    if isinstance(it, SymList):
+        return SymList(it.n, it.f, it.label)     # a new list with the same elements
     return list(L.I.iterate(it))
 
 
